@@ -92,58 +92,34 @@ theorem nlAll_insertAt (l : List RTrivia) : ∀ (i : Nat) (t : RTrivia),
 theorem nl_gapTrivia (g : Nat) : countNewLines (gapTrivia g).text = g := by
   simp [gapTrivia, cnl_replicate]
 
-theorem reattachLoop_inorder (cs : List RTrivia) : ∀ (token : List RTrivia) (index offset : Nat)
-    (prev : Option Nat), token.length ≤ index + offset →
-    reattachLoop token index offset prev cs = token ++ interleave prev cs := by
-  induction cs with
-  | nil => intro token _ _ _ _; simp [reattachLoop, interleave]
-  | cons t rest ih =>
-    intro token index offset prev h
-    simp only [reattachLoop, interleave]
-    generalize gapOf prev t.line = gap
-    by_cases hg : gap = 0
-    · subst hg
-      simp only [bne_self_eq_false, Bool.false_eq_true, if_false]
-      rw [insertAt_ge token _ _ h, ih _ _ _ _ (by simp; omega)]
-      simp
-    · have hb : (gap != 0) = true := by simpa using hg
-      simp only [hb, if_true]
-      rw [insertAt_ge token _ _ h, insertAt_ge _ _ _ (by simp; omega), ih _ _ _ _ (by simp; omega)]
-      simp
-
 theorem insertAt_append_len (pre own : List RTrivia) (t : RTrivia) :
     insertAt (pre ++ own) pre.length t = pre ++ t :: own := by
   induction pre with
   | nil => cases own <;> rfl
   | cons x xs ih => simp only [List.cons_append, List.length_cons, insertAt, ih]
 
-theorem reattachLoop_small_gaps (cs : List RTrivia) : ∀ (pre own : List RTrivia) (index offset : Nat)
-    (prev : Option Nat), pre.length = index + offset → smallGaps prev cs = true →
+theorem reattachLoop_inorder (cs : List RTrivia) : ∀ (pre own : List RTrivia) (index offset : Nat)
+    (prev : Option Nat), pre.length = index + offset →
     reattachLoop (pre ++ own) index offset prev cs = pre ++ interleave prev cs ++ own := by
   induction cs with
-  | nil => intro pre own _ _ _ _ _; simp [reattachLoop, interleave]
+  | nil => intro pre own _ _ _ _; simp [reattachLoop, interleave]
   | cons t rest ih =>
-    intro pre own index offset prev h hs
-    simp only [smallGaps, Bool.and_eq_true, decide_eq_true_eq] at hs
-    obtain ⟨hg1, hrest⟩ := hs
+    intro pre own index offset prev h
     simp only [reattachLoop, interleave]
-    generalize gapOf prev t.line = gap at hg1
+    generalize gapOf prev t.line = gap
     by_cases hg : gap = 0
     · subst hg
       simp only [bne_self_eq_false, Bool.false_eq_true, if_false]
       rw [← h, insertAt_append_len]
-      have := ih (pre ++ [t]) own (index + 1) offset _ (by simp; omega) hrest
+      have := ih (pre ++ [t]) own (index + 1) offset (if t.line.isSome then t.line else prev) (by simp; omega)
       simpa using this
     · have hb : (gap != 0) = true := by simpa using hg
-      have h1 : gap = 1 := by omega
-      subst h1
       simp only [hb, if_true]
       rw [← h, insertAt_append_len]
-      have e1 : pre ++ gapTrivia 1 :: own = (pre ++ [gapTrivia 1]) ++ own := by simp
-      have e2 : pre.length + 1 = (pre ++ [gapTrivia 1]).length := by simp
-      have e3 : index + (offset + 1) = (pre ++ [gapTrivia 1]).length := by simp; omega
+      have e1 : pre ++ gapTrivia gap :: own = (pre ++ [gapTrivia gap]) ++ own := by simp
+      have e3 : index + (offset + 1) = (pre ++ [gapTrivia gap]).length := by simp; omega
       rw [e1, e3, insertAt_append_len]
-      have := ih (pre ++ [gapTrivia 1] ++ [t]) own (index + 1) (offset + 1) _ (by simp; omega) hrest
+      have := ih (pre ++ [gapTrivia gap] ++ [t]) own (index + 1) (offset + 1) (if t.line.isSome then t.line else prev) (by simp; omega)
       simpa using this
 
 theorem nlAll_reattachLoop (cs : List RTrivia) : ∀ (token : List RTrivia) (index offset : Nat)
